@@ -8,27 +8,32 @@ import os, re, sys, json, heapq, collections
 sys.path.insert(0, os.path.dirname(__file__))
 import vlib, gen_grammar
 
-STACKS = ('fragments', 'typeFragments', 'frames')
-F, T, R = STACKS
+# the three builder stacks, and two "current object" pointers seen as stacks of height 0 / 1 (null / set): an action that
+# dereferences the pointer "reads one entry"; for these two only the need side is compared with the traces
+STACKS = ('fragments', 'typeFragments', 'frames', 'currentFun', 'currentTemplate')
+F, T, R, CF, CT = STACKS
+FLAG_STACKS = (CF, CT)
 
 # effect of a callback on a stack: (need, lo, hi); entries are ints or ('arg', index, add) = value of argument #index + add
-def E(f=None, t=None, r=None):
-    return {F: f or (0, 0, 0), T: t or (0, 0, 0), R: r or (0, 0, 0)}
+def E(f=None, t=None, r=None, cf=None, ct=None):
+    return {F: f or (0, 0, 0), T: t or (0, 0, 0), R: r or (0, 0, 0), CF: cf or (0, 0, 0), CT: ct or (0, 0, 0)}
+USES_FUN = (1, 0, 0)         # get_block() / currentFun-> without a null check
+USES_TEMPL = (1, 0, 0)       # currentTemplate-> without a null check
 
 def n_(i, add=0, mul=1):
     return ('arg', i, add, mul)
 
 EFFECTS = {
-    'after_update': E(f=(1, -1, -1)), 'assert_statement': E(f=(1, -1, -1)), 'before_update': E(f=(1, -1, -1)),
-    'block_begin': E(r=(0, 1, 1)), 'block_end': E(r=(1, -1, -1)),
+    'after_update': E(f=(1, -1, -1)), 'assert_statement': E(f=(1, -1, -1), cf=USES_FUN), 'before_update': E(f=(1, -1, -1)),
+    'block_begin': E(r=(0, 1, 1)), 'block_end': E(r=(1, -1, -1), cf=USES_FUN),
     'break_statement': E(), 'case_begin': E(), 'case_end': E(), 'continue_statement': E(), 'default_begin': E(), 'default_end': E(),
     'chan_priority_add': E(f=(1, -1, -1)), 'chan_priority_begin': E(f=(1, -1, -1)), 'chan_priority_default': E(f=(0, 1, 1)),
     'decl_dynamic_template': E(), 'decl_external_func': E(t=(1, -1, -1)), 'decl_field_init': E(f=(1, 0, 0)),
-    'decl_func_begin': E(t=(1, -1, -1), r=(0, 1, 1)), 'decl_func_end': E(r=(1, -1, -1)),
+    'decl_func_begin': E(t=(1, -1, -1), r=(0, 1, 1), cf=(0, 1, 1)), 'decl_func_end': E(r=(1, -1, -1), cf=(1, -1, -1)),
     'decl_init_list': E(f=(n_(0), n_(0, 1, -1), n_(0, 1, -1))),
     'decl_parameter': E(t=(1, -1, -1)), 'decl_typedef': E(t=(1, -1, -1)),
     'decl_var': E(f=(n_(1), n_(1, 0, -1), n_(1, 0, -1)), t=(1, -1, -1)),
-    'do_while_begin': E(), 'do_while_end': E(f=(1, -1, -1)), 'done': E(), 'dynamic_load_lib': E(), 'empty_statement': E(),
+    'do_while_begin': E(), 'do_while_end': E(f=(1, -1, -1), cf=USES_FUN), 'done': E(), 'dynamic_load_lib': E(), 'empty_statement': E(cf=USES_FUN),
     'expr_MITL_box': E(f=(1, 0, 0)), 'expr_MITL_diamond': E(f=(1, 0, 0)), 'expr_MITL_formula': E(f=(1, 0, 0)), 'expr_MITL_next': E(f=(1, 0, 0)),
     'expr_MITL_release': E(f=(2, -1, -1)), 'expr_MITL_until': E(f=(2, -1, -1)),
     'expr_array': E(f=(2, -1, -1)), 'expr_assignment': E(f=(2, -1, -1)), 'expr_binary': E(f=(2, -1, -1)),
@@ -51,21 +56,21 @@ EFFECTS = {
     'expr_save_strategy': E(f=(1, 0, 0)), 'expr_scenario': E(f=(0, 1, 1)),
     'expr_simulate': E(f=(n_(0, 3), n_(0, -2, -1), n_(0, -2, -1))),
     'expr_spawn': E(f=(n_(0, 1), n_(0, 0, -1), n_(0, 0, -1))),
-    'expr_statement': E(f=(1, -1, -1)), 'expr_string': E(f=(0, 1, 1)),
+    'expr_statement': E(f=(1, -1, -1), cf=USES_FUN), 'expr_string': E(f=(0, 1, 1)),
     'expr_sum_begin': E(t=(1, -1, -1), r=(0, 1, 1)), 'expr_sum_dynamic_begin': E(r=(0, 1, 1)),
     'expr_sum_dynamic_end': E(f=(2, -1, -1), r=(1, -1, -1)), 'expr_sum_end': E(f=(1, 0, 0), r=(1, -1, -1)),
     'expr_ternary': E(f=(3, -2, -2)), 'expr_true': E(f=(0, 1, 1)), 'expr_unary': E(f=(1, 0, 0)),
-    'for_begin': E(), 'for_end': E(f=(3, -3, -3)),
+    'for_begin': E(), 'for_end': E(f=(3, -3, -3), cf=USES_FUN),
     'gantt_decl_begin': E(r=(0, 1, 1)), 'gantt_decl_end': E(r=(1, -1, -1)), 'gantt_decl_select': E(t=(1, -1, -1)),
     'gantt_entry_begin': E(r=(0, 1, 1)), 'gantt_entry_end': E(f=(2, -2, -2), r=(1, -1, -1)), 'gantt_entry_select': E(t=(1, -1, -1)),
-    'if_begin': E(), 'if_condition': E(), 'if_end': E(f=(1, -1, -1)), 'if_then': E(), 'imitation': E(),
+    'if_begin': E(), 'if_condition': E(), 'if_end': E(f=(1, -1, -1), cf=USES_FUN), 'if_then': E(), 'imitation': E(),
     'instance_name': E(), 'instance_name_begin': E(r=(0, 1, 1)), 'instance_name_end': E(f=(n_(1), n_(1, 0, -1), n_(1, 0, -1)), r=(1, -1, -1)),
     'instantiation_begin': E(r=(0, 1, 1)), 'instantiation_end': E(f=(n_(3), n_(3, 0, -1), n_(3, 0, -1)), r=(1, -1, -1)),
-    'iteration_begin': E(t=(1, -1, -1), r=(0, 1, 1)), 'iteration_end': E(r=(1, -1, -1)),
-    'proc_LSC_update': E(f=(1, -1, -1)), 'proc_begin': E(r=(0, 1, 1)), 'proc_branchpoint': E(), 'proc_condition': E(f=(1, -1, -1)),
-    'proc_edge_begin': E(r=(0, 1, 1)), 'proc_edge_end': E(r=(1, -1, -1)), 'proc_end': E(r=(1, -1, -1)),
+    'iteration_begin': E(t=(1, -1, -1), r=(0, 1, 1), cf=USES_FUN), 'iteration_end': E(r=(1, -1, -1), cf=USES_FUN),
+    'proc_LSC_update': E(f=(1, -1, -1)), 'proc_begin': E(r=(0, 1, 1), ct=(0, 1, 1)), 'proc_branchpoint': E(ct=USES_TEMPL), 'proc_condition': E(f=(1, -1, -1)),
+    'proc_edge_begin': E(r=(0, 1, 1), ct=USES_TEMPL), 'proc_edge_end': E(r=(1, -1, -1)), 'proc_end': E(r=(1, -1, -1), ct=(0, -1, 0)),
     'proc_guard': E(f=(1, -1, 0)), 'proc_sync': E(f=(1, -1, 0)), 'proc_update': E(f=(1, -1, 0)), 'proc_prob': E(f=(1, -1, 0)),
-    'proc_location_commit': E(), 'proc_location_init': E(), 'proc_location_urgent': E(),
+    'proc_location_commit': E(), 'proc_location_init': E(ct=USES_TEMPL), 'proc_location_urgent': E(),
     'proc_message': E(f=(1, -1, -1)), 'proc_priority_inc': E(), 'proc_select': E(t=(1, -1, -1)),
     'process': E(), 'process_list_end': E(), 'property': E(f=(1, -1, -1)),
     'scenario': E(), 'strategy_declaration': E(), 'struct_field': E(t=(1, -1, -1)), 'subjection': E(),
@@ -74,13 +79,13 @@ EFFECTS = {
     'type_bool': E(t=(0, 1, 1)), 'type_bounded_int': E(f=(2, -2, -2), t=(0, 1, 1)), 'type_channel': E(t=(0, 1, 1)), 'type_clock': E(t=(0, 1, 1)),
     'type_double': E(t=(0, 1, 1)), 'type_duplicate': E(t=(1, 1, 1)), 'type_int': E(t=(0, 1, 1)), 'type_name': E(t=(0, 1, 1)), 'type_pop': E(t=(1, -1, -1)),
     'type_scalar': E(f=(1, -1, -1), t=(0, 1, 1)), 'type_string': E(t=(0, 1, 1)), 'type_struct': E(t=(0, 1, 1)), 'type_void': E(t=(0, 1, 1)),
-    'while_begin': E(), 'while_end': E(f=(1, -1, -1)),
+    'while_begin': E(), 'while_end': E(f=(1, -1, -1), cf=USES_FUN),
     'handle_error': E(), 'handle_warning': E(), 'handle_expect': E(), 'set_position': E(),
 }
 # callbacks whose effect depends on a boolean argument
 def special(name, args):
     if name == 'return_statement':
-        return E(f=(1, -1, -1)) if args[0] == 'true' else E()
+        return E(f=(1, -1, -1)) if args[0] == 'true' else E()          # return_statement checks currentFun itself
     if name == 'decl_progress':
         return E(f=(2, -2, -2)) if args[0] == 'true' else E(f=(1, -1, -1))
     if name == 'expr_optimize_exp':
@@ -90,7 +95,7 @@ def special(name, args):
         return E(f=(n_(0, 4), n_(0, -3, -1), n_(0, -3, -1))) if reach else E(f=(n_(0, 3), n_(0, -2, -1), n_(0, -2, -1)))
     if name == 'proc_location':
         k = (args[1] == 'true') + (args[2] == 'true')
-        return E(f=(k, -k, -k))
+        return E(f=(k, -k, -k), ct=USES_TEMPL)
     return None
 
 
@@ -388,7 +393,7 @@ def write(path=None, exclude=None):
     for stack in STACKS:
         a, b, h, g = certificate(A, rules, symnum, terms, stack)
         fails = mirror_check(A, rules, symnum, terms, stack, a, b, h, g)
-        tag = {F: 'frag', T: 'type', R: 'frame'}[stack]
+        tag = {F: 'frag', T: 'type', R: 'frame', CF: 'fun', CT: 'templ'}[stack]
         out.append('(* ---- %s ---- *)' % stack)
         out.append('Definition rules_%s : list (positive * rule) := [' % tag)
         rows = []
